@@ -124,7 +124,33 @@ def work_exact(arg):
     for k, (lo, hi) in iso.model.param_bounds.items():
         if not (lo - 1e-12 <= iso.model.params[k] <= hi + 1e-12):
             out['viol'].append(core.make_violation({'check': 'parameter-outside-bounds', 'model': name}, f'{name}: fitted {k}={iso.model.params[k]} outside {lo, hi}', {'model': name}))
+    # the optimiser's budget (documented pass-through): a fit that runs out of evaluations either refuses or has reproduced the data
+    if spacing == 'log' or npts <= 12:
+        for budget in BUDGETS:
+            ob = core.call(fit, name, p, n, optimization_params={'max_nfev': budget})
+            out['ev'] += 1
+            if not ob.ok:
+                if ob.kind != 'CalculationError':
+                    out['viol'].append(core.make_violation({'check': 'fit-raises', 'model': name, 'kind': ob.kind, 'budget': 'limited'},
+                                                           f'fit of exact {name}{q} data with max_nfev={budget} {ob.brief()}', {'model': name, 'params': q, 'max_nfev': budget}))
+                out['budget_refused'] = out.get('budget_refused', 0) + 1
+                continue
+            out['nt'] += 1
+            predb = core.call(ob.value.model.loading, p)
+            eb = float(numpy.max(numpy.abs(numpy.asarray(predb.value) - n) / numpy.maximum(numpy.abs(n), 1e-300))) if predb.ok else float('inf')
+            rb = recomputed_rmse(ob.value, p, n) if predb.ok else float('nan')
+            if eb > 1e-5:
+                out['viol'].append(core.make_violation(
+                    {'check': 'exact-data-not-reproduced', 'model': name, 'budget': 'limited'},
+                    f'{name} fitted to exact {name}{q} data with max_nfev={budget} returns normally but deviates by up to {eb:.3g} (fitted {ob.value.model.params}); '
+                    f'with the default budget the data are reproduced to {e:.3g}', {'model': name, 'generating': q, 'max_nfev': budget}, q, ob.value.model.params))
+            elif abs(rb - ob.value.model.rmse) > 1e-10 * max(rb, 1e-300) + 1e-15:
+                out['viol'].append(core.make_violation({'check': 'rmse-identity', 'model': name, 'budget': 'limited'},
+                                                       f'{name} (max_nfev={budget}): reported rmse {ob.value.model.rmse:.12g}, recomputed {rb:.12g}', {'model': name}, rb, ob.value.model.rmse))
     return out
+
+
+BUDGETS = (1, 2, 3, 6, 12, 40)
 
 
 def work_noisy(arg):
@@ -320,7 +346,18 @@ def check_misc(ctx):
                                                     f'generator of that branch {want}', {'row_labels': iname, 'route': route}))
     # --- from_modelisotherm and refit
     mi = fit('Toth', p, ml.ref_loading('Toth', {'n_m': 5.0 * scale, 'K': 12.0, 't': 0.7}, p), note='meta', run=3.5)
-    for kw, tag in ((dict(pressure_points=[0.05, 0.2, 0.6, 1.5]), 'pressure points'), (dict(loading_points=[0.5 * scale, 2.0 * scale, 3.5 * scale]), 'loading points'), ({}, 'default grid')):
+    def ref_iso(**units):
+        uu = dict(units_for('Toth'), **units)
+        return pygaps.PointIsotherm(pressure=[0.05, 0.2, 0.6, 1.5], loading=[1.0, 2.0, 3.0, 4.0], material='c12ref', adsorbate='N2', temperature=T, **uu)
+    forms = [(dict(pressure_points=[0.05, 0.2, 0.6, 1.5]), 'pressure points'), (dict(loading_points=[0.5 * scale, 2.0 * scale, 3.5 * scale]), 'loading points'), ({}, 'default grid'),
+             (dict(pressure_points=numpy.array([0.05, 0.2, 0.6, 1.5])), 'pressure points (array)'), (dict(pressure_points=(0.05, 0.2)), 'pressure points (tuple)'),
+             # the pressures of a reference isotherm, which may be recorded in other units than the model
+             (dict(pressure_points=ref_iso()), 'reference isotherm, same units'),
+             (dict(pressure_points=ref_iso(pressure_unit='kPa')), 'reference isotherm in kPa'),
+             (dict(pressure_points=ref_iso(pressure_unit='torr')), 'reference isotherm in torr'),
+             (dict(pressure_points=ref_iso(pressure_mode='relative', pressure_unit=None)), 'reference isotherm in relative pressure'),
+             (dict(pressure_points=ref_iso(loading_unit='mol', material_unit='kg')), 'reference isotherm, other loading units')]
+    for kw, tag in forms:
         o = core.call(pygaps.PointIsotherm.from_modelisotherm, mi, **kw)
         ev += 1
         nt += 1
